@@ -11,6 +11,7 @@ import (
 	"strings"
 	"sync"
 	"sync/atomic"
+	"time"
 
 	"github.com/aundis/formula"
 
@@ -48,7 +49,7 @@ var c09 = core.Register(&core.Prop{
 	CaseTimeoutSec:   func(tier string) int { return pickTier(tier, 240, 900) },
 	Floors: func(c map[string]int64, tier string) []string {
 		var out []string
-		for _, k := range []string{"goroutine_evaluations", "overlapping_evaluations_observed", "field_analyses", "own_parses", "own_error_parses", "race_log_files_scanned", "configs_completed", "runners_without_data_map"} {
+		for _, k := range []string{"goroutine_evaluations", "overlapping_evaluations_observed", "field_analyses", "own_parses", "own_error_parses", "race_log_files_scanned", "configs_completed", "runners_without_data_map", "runner_from_context_checks", "deep_evaluations_in_flight_together"} {
 			if c[k] == 0 && k != "race_log_files_scanned" {
 				out = append(out, "coverage floor: no "+k)
 			}
@@ -185,7 +186,12 @@ var c09Share = core.Mon(c09, "concurrent-share", func(w *core.W, c *RaceCfg) {
 			}
 		})
 	}
-	var overlaps, evals, analyses, parses, errParses, nilMapRuns int64
+	var overlaps, evals, analyses, parses, errParses, nilMapRuns, ctxRuns, deepRuns int64
+	whoTree, werr0 := hostParse([]byte("who(n0) + 1"), true)
+	if werr0 != nil {
+		w.Inconclusive("C09: helper formula does not parse: " + werr0.Error())
+		return
+	}
 	type mismatch struct {
 		g, tree   int
 		what      string
@@ -250,6 +256,35 @@ var c09Share = core.Mon(c09, "concurrent-share", func(w *core.W, c *RaceCfg) {
 					} else if o := evalOutcome(sc, datas[g]); !strings.HasPrefix(o, "VALUE") {
 						report(mismatch{g, -1, "own evaluation", "a value", o})
 					}
+				case 0:
+					// the runner a host function finds through its context is the one the host put there (or none): never
+					// the runner of whatever evaluation happens to be in flight elsewhere
+					wr := formula.NewRunner()
+					var found *formula.Runner
+					called := false
+					wr.SetThis(map[string]interface{}{"who": func(ctx context.Context, tag int) (interface{}, error) {
+						called = true
+						found = formula.RunnerFromCtx(ctx)
+						return tag, nil
+					}, "n0": g})
+					wr.Set("owner", g)
+					var wctx context.Context = context.Background()
+					var want *formula.Runner
+					if it%10 == 0 {
+						wctx = context.WithValue(wctx, "formulaRunner", wr) //nolint (the package's key is this plain string)
+						want = wr
+					}
+					atomic.AddInt64(&ctxRuns, 1)
+					var wv interface{}
+					var werr error
+					p, pv := core.Call(func() { wv, werr = wr.Resolve(wctx, whoTree.Expression) })
+					if p || werr != nil || !called || found != want || plainNums(wv) != fmt.Sprint(g+1) {
+						owner := interface{}("none")
+						if found != nil {
+							owner = found.Get("owner")
+						}
+						report(mismatch{g, -1, "runner found through the context", fmt.Sprintf("the runner in the context (%v) and the value %d", want != nil, g+1), fmt.Sprint("found runner owned by goroutine ", owner, " value ", plainNums(wv), " ", werr, pv)})
+					}
 				case 4:
 					// runners without a data map of their own (never set, set to nil, created by SetThisValue): their locals
 					// are theirs alone, whatever other goroutines' runners assign at the same time
@@ -298,6 +333,38 @@ var c09Share = core.Mon(c09, "concurrent-share", func(w *core.W, c *RaceCfg) {
 	}
 	close(start)
 	wg.Wait()
+	// many evaluations deep inside one tree at the same moment: D nested parentheses around a host call that waits until
+	// all goroutines of the phase have arrived (or a watchdog expires) - nesting is per evaluation, not per process
+	const deepG, deepD = 64, 6000
+	deepSrc := strings.Repeat("(", deepD) + "hold(n0)" + strings.Repeat(")", deepD) + " + 1"
+	if deepTree, derr := hostParse([]byte(deepSrc), true); derr == nil {
+		var arrived int32
+		var dwg sync.WaitGroup
+		for g := 0; g < deepG; g++ {
+			dwg.Add(1)
+			go func(g int) {
+				defer dwg.Done()
+				dr := formula.NewRunner()
+				dr.SetThis(map[string]interface{}{"n0": g, "hold": func(x interface{}) (interface{}, error) {
+					atomic.AddInt32(&arrived, 1)
+					for spin := 0; spin < 3000 && atomic.LoadInt32(&arrived) < deepG; spin++ {
+						time.Sleep(time.Millisecond)
+					}
+					return x, nil
+				}})
+				var v interface{}
+				var err error
+				p, pv := core.Call(func() { v, err = dr.Resolve(context.Background(), deepTree.Expression) })
+				atomic.AddInt64(&deepRuns, 1)
+				if p || err != nil || plainNums(v) != fmt.Sprint(g+1) {
+					// count the goroutine as arrived so that the others do not wait for it
+					atomic.AddInt32(&arrived, 1)
+					report(mismatch{g, -1, "deeply nested evaluation in flight with 63 others", fmt.Sprint(g + 1), fmt.Sprint(plainNums(v), " ", err, pv)})
+				}
+			}(g)
+		}
+		dwg.Wait()
+	}
 	obs.SetHook(nil)
 	// the sequential oracle, computed now
 	for _, t := range trees {
@@ -325,6 +392,8 @@ var c09Share = core.Mon(c09, "concurrent-share", func(w *core.W, c *RaceCfg) {
 	w.CountN("own_parses", parses)
 	w.CountN("own_error_parses", errParses)
 	w.CountN("runners_without_data_map", nilMapRuns)
+	w.CountN("runner_from_context_checks", ctxRuns)
+	w.CountN("deep_evaluations_in_flight_together", deepRuns)
 	w.CountN("yields_injected", int64(yields))
 	w.CountN("shared_trees", int64(len(trees)))
 	w.Count("configs_completed")
